@@ -239,3 +239,59 @@ def fuse_left_cases(backend: str) -> List[Dict[str, Any]]:
                 mds.append(dm[("add_cpp_function", "twice")])
             out.append({"label": f"{plabel}/{slabel}", "q": q, "mds": mds, "op": op})
     return out
+
+
+# ---------------------------------------------------------------- (b) doubly crossing shadowing
+# Four (or five) nested lambdas; the names of the OUTER binders are used again AFTER the inner lambdas.  The variants
+# re-bind both outer names at different inner levels (`lambda e: .. lambda j: .. lambda e: .. lambda j: ..` with a use of
+# the outer j behind the innermost lambda): a frame that is not pushed, or a binding that outlives its lambda, shows only
+# with two crossing levels of hiding.  Binder slots {b0} {b1} ..; A.os() are B objects, B.os() are A objects.
+CROSS = [
+    ("where-where-use-after", ["ev", "A", "B", "A"],
+     'Select(EventDataset("ds"), lambda {b0}: {b0}.CollA("a").Select(lambda {b1}: {b1}.os().Where(lambda {b2}: {b2}.os().Where(lambda {b3}: {b3}.i() > 0).Count() > 2 and {b2}.d() < {b1}.d()).Count()))'),
+    ("select-select-use-after", ["ev", "A", "B", "A"],
+     'Select(EventDataset("ds"), lambda {b0}: {b0}.CollA("a").Select(lambda {b1}: {b1}.os().Select(lambda {b2}: {b2}.os().Select(lambda {b3}: {b3}.d() * 2).Sum() + {b2}.d() + {b1}.d()).Sum() + {b0}.CollB("b").Count()))'),
+    ("columns-use-after", ["ev", "A", "B", "A"],
+     'Select(SelectMany(EventDataset("ds"), lambda {b0}: {b0}.CollA("a")), lambda {b1}: ({b1}.os().Where(lambda {b2}: {b2}.os().Select(lambda {b3}: {b3}.d()).Sum() > {b2}.d()).Count(), {b1}.d()))'),
+    ("five-deep", ["ev", "A", "B", "A", "B"],
+     'Select(EventDataset("ds"), lambda {b0}: {b0}.CollA("a").Select(lambda {b1}: {b1}.os().Where(lambda {b2}: {b2}.os().Where(lambda {b3}: {b3}.os().Where(lambda {b4}: {b4}.i() > 1).Count() > {b3}.i()).Count() > {b2}.i() and {b2}.d() < {b1}.d()).Count() + {b0}.CollA("c").Count()))'),
+    ("top-level-chain", ["ev", "A", "B", "A"],
+     'Select(SelectMany(EventDataset("ds"), lambda {b0}: {b0}.CollA("a")), lambda {b1}: {b1}.os().Where(lambda {b2}: {b2}.os().Where(lambda {b3}: {b3}.i() > 0).Count() > 2 and {b2}.d() < {b1}.d()).Count())'),
+]
+CROSS_POOL = ["e", "j", "t", "h", "m"]
+
+
+def cross_cases(backend: str, rng, per_shape: Optional[int]) -> List[Dict[str, Any]]:
+    """base: every binder its own name; variants: EVERY assignment of names from the pool to the binders that is an
+    alpha-variant of the base (checked on the de Bruijn forms), or `per_shape` of them — those that re-use the most
+    names first (the doubly crossing ones), the rest sampled."""
+    dm = _dm(backend)
+    mds = [dm[(gen.COLL_MD[backend], "CollA")], dm[(gen.COLL_MD[backend], "CollB")]] + [dm[("add_method_type_info", f"mdl::{c}.{m}")] for c in "AB" for m in ("os", "i")]
+    out = []
+    for label, kinds, src in CROSS:
+        k = len(kinds)
+        pool = CROSS_POOL[:k]
+        fill = lambda names: P(src.format(**{f"b{i}": n for i, n in enumerate(names)}))  # noqa: E731
+        base = fill(pool)
+        ref = T.debruijn(base)
+        valid = []
+        for names in itertools.product(pool, repeat=k):
+            if list(names) == pool:
+                continue
+            firsts = [n for i, n in enumerate(names) if n not in names[:i]]
+            if firsts != pool[: len(firsts)]:
+                continue  # one representative per pattern of re-use (new names are taken from the pool in order)
+            try:
+                v = fill(names)
+            except Exception:
+                continue
+            if T.debruijn(v) == ref:
+                valid.append((names, v))
+        valid.sort(key=lambda nv: (len(set(nv[0])), nv[0]))  # fewest distinct names first
+        if per_shape is not None and len(valid) > per_shape:
+            fewest = len(set(valid[0][0]))
+            head = [nv for nv in valid if len(set(nv[0])) == fewest][:per_shape]  # the patterns with the most re-use, all of them
+            rest = valid[len(head):]
+            valid = head + rng.sample(rest, per_shape - len(head))
+        out.append({"label": label, "q": base, "mds": mds, "variants": [("/".join(n), v) for n, v in valid]})
+    return out
